@@ -903,9 +903,17 @@ class Array(Taggable):
     # in arraycontext)
 
     def __add__(self, other: ArrayOrScalar) -> Array:
+        if (isinstance(other, (Array, *SCALAR_CLASSES))
+                and _np_result_dtype(self, other) == _BOOL_DTYPE):
+            # numpy boolean add is logical or (an inlined 'True + True'
+            # would evaluate to 2 in a non-boolean consumer)
+            return cast("Array", logical_or(self, other))
         return self._binary_op(operator.add, other)
 
     def __radd__(self, other: ArrayOrScalar) -> Array:
+        if (isinstance(other, (Array, *SCALAR_CLASSES))
+                and _np_result_dtype(other, self) == _BOOL_DTYPE):
+            return cast("Array", logical_or(other, self))
         return self._binary_op(operator.add, other, reverse=True)
 
     def __mul__(self, other: ArrayOrScalar) -> Array:
